@@ -111,6 +111,22 @@ func §E() {
 	tr.V(3, strings.Contains(f1.Function[strings.LastIndex(f1.Function, "/")+1:], "func"))
 	tr.V(4, upper("abc"))
 }`, "eta:stdlib"), "runtime", "strings"),
+		withImports(Raw("by-import-used-only-in-dead-code-of-a-generator", `
+func §gen() ITER[int] GEN[int]{
+	for {
+		YIELD(1)
+		break
+		println(sha256.Size)
+	}
+	RETNIL
+}GEN
+func §E() {
+	// crypto/sha256 registers itself in its init: the bystander sees it only while the import is there
+	tr.V(1, crypto.SHA256.Available())
+	it := §gen()
+	tr.V(2, it.MoveNext())
+}
+`, "import-only-in-dead-code"), "crypto", "crypto/sha256"),
 		by("by-eta-funcvar-reassigned", `
 func §E() {
 	f := func(x int) int { tr.E(1); return x + 1 }
